@@ -294,16 +294,33 @@ func (f *frame) call0(res ssa.Value, c *ssa.CallCommon, st *State, cur string) (
 	}
 	freshResults := func(sig *types.Signature, nonNil bool) *Val {
 		rs := sig.Results()
+		// the type of the call instruction is the instantiated one where the callee is generic (slices.DeleteFunc
+		// returns S in its signature, []cachepb.Store at the call)
+		resType := func(i int) types.Type {
+			if res != nil {
+				if tup, ok := res.Type().(*types.Tuple); ok {
+					if tup.Len() == rs.Len() {
+						return tup.At(i).Type()
+					}
+				} else if rs.Len() == 1 {
+					return res.Type()
+				}
+			}
+			return rs.At(i).Type()
+		}
+		if os.Getenv("GVC_DEBUG_RES") != "" && res != nil {
+			fmt.Fprintf(os.Stderr, "freshResults in %s: res=%s type=%s (%T) sig=%s\n", f.fn.String(), res.Name(), res.Type(), res.Type(), sig)
+		}
 		var vals []*Val
 		for i := 0; i < rs.Len(); i++ {
 			name := fmt.Sprintf("f%d.call%d.r%d", f.id, B.n, i)
 			if res != nil {
 				name = fmt.Sprintf("%s.r%d", f.vname(res), i)
 			}
-			c := B.declConst(B.fresh(name), B.sortOf(rs.At(i).Type()))
-			cur = and(cur, t.typeFacts(st, c, rs.At(i).Type()))
+			c := B.declConst(B.fresh(name), B.sortOf(resType(i)))
+			cur = and(cur, t.typeFacts(st, c, resType(i)))
 			if nonNil {
-				switch rs.At(i).Type().Underlying().(type) {
+				switch resType(i).Underlying().(type) {
 				case *types.Interface:
 					cur = and(cur, fmt.Sprintf("(not (= (i_tag %s) 0))", c))
 				case *types.Pointer:
